@@ -230,6 +230,11 @@ def run(ctx):
     extract_raises(ctx, py)
     override_chain(ctx, py, w)
     proofexp_static(ctx, py)
+    # what the guards rely on: the freshness judgement is sound on every pattern class (shared with C06) and `==` between
+    # patterns is structural equality that sees through notation by expansion (shared with C12)
+    from . import c06, c12
+    c06.python_half(ctx, py)
+    c12.t2(ctx, py)
     ctx.floor('rule-conclusion', 4)
     ctx.floor('rule-guard', 3)
     ctx.floor('override-chain', 9)
@@ -240,6 +245,7 @@ def run(ctx):
         'condition (antecedent equality; freshness judgement of the generalised variable in the consequent), so adversarial premises are '
         'covered on all paths, not by sampling; every override (Stateful, Serializing, Counting, PrettyPrinting through its decorator, '
         'InterpreterTransformer) hands the same arguments to the next implementation exactly once and returns its value; '
-        'Pattern.extract/unwrap raise on a non-implication; ProofExp repeats the antecedent check statically. The freshness judgement '
-        'itself is decided under C06.')
+        'Pattern.extract/unwrap raise on a non-implication; ProofExp repeats the antecedent check statically. The two things the guards rely '
+        'on are decided here as well: evar_is_free is sound on all 11 pattern classes (C06 rule) and pattern equality is structural with the '
+        'notation node comparing its expansion (C12 rule).')
     ctx.assumptions = ['evar_is_free is sound (C06), also under notation', 'python assert statements are enabled (no -O)']
